@@ -57,7 +57,7 @@ pub fn qos_from_case(q: &Value) -> (DataWriterQos, PublisherQos, DataReaderQos, 
     (w, p, r, s)
 }
 
-fn policy_name(id: QosPolicyId) -> String {
+pub fn policy_name(id: QosPolicyId) -> String {
     match id {
         DURABILITY_QOS_POLICY_ID => "durability",
         PRESENTATION_QOS_POLICY_ID => "presentation",
